@@ -120,24 +120,24 @@ Section Hyp.
 
   Lemma hyp_stmt : forall s, hyp_stmt_spec s.
   Proof.
-    intros s. induction s using stmt_ind'; unfold hyp_stmt_spec; intros ok D acc H; simpl in *.
+    intros s. induction s using stmt_ind'; unfold hyp_stmt_spec; intros ok D acc Hh; simpl in *.
     - rewrite app_nil_r. auto.
-    - apply andb_true_iff in H. destruct H as [H1 H2]. apply Nat.eqb_eq in H2. rewrite H2. auto.
-    - apply andb_true_iff in H. destruct H as [H1 H2]. apply Nat.eqb_eq in H2. rewrite H2. auto.
+    - apply andb_true_iff in Hh. destruct Hh as [H1 H2]. apply Nat.eqb_eq in H2. rewrite H2. auto.
+    - apply andb_true_iff in Hh. destruct Hh as [H1 H2]. apply Nat.eqb_eq in H2. rewrite H2. auto.
     - destruct (fold_left (hyp_s sigs G) b1 (ok, D)) as [ok1 D1] eqn:E1.
-      destruct (hyp_list b2 H0 ok1 D1 (acc ++ map (rootG G) (flat_map (wn_s W) b1)) H1) as [Hok1 [Hl2 Hw2]].
+      destruct (hyp_list b2 H0 ok1 D1 (acc ++ map (rootG G) (flat_map (wn_s W) b1)) Hh) as [Hok1 [Hl2 Hw2]].
       assert (F : fst (fold_left (hyp_s sigs G) b1 (ok, D)) = true) by (rewrite E1; assumption).
       destruct (hyp_list b1 H ok D acc F) as [Hok [Hl1 Hw1]]. rewrite E1 in Hw1. simpl in Hw1.
       split; [assumption|]. split; [rewrite Hl1, Hl2; reflexivity|].
       rewrite Hw1, Hw2, map_app, app_assoc. reflexivity.
-    - destruct (hyp_list b H ok D acc H0) as [Hok [Hl1 Hw1]]. auto.
+    - destruct (hyp_list b H ok D acc Hh) as [Hok [Hl1 Hw1]]. auto.
     - rewrite app_nil_r. auto.
     - rewrite app_nil_r.
-      apply andb_true_iff in H. destruct H as [H H4]. apply andb_true_iff in H. destruct H as [H H3].
-      apply andb_true_iff in H. destruct H as [H1 H2].
+      apply andb_true_iff in Hh. destruct Hh as [Hh H4]. apply andb_true_iff in Hh. destruct Hh as [Hh H3].
+      apply andb_true_iff in Hh. destruct Hh as [H1 H2].
       apply Nat.eqb_eq in H2, H3. split; [assumption|]. split; [|reflexivity].
       rewrite H4, andb_true_r. apply Nat.eqb_eq. congruence.
-    - apply andb_true_iff in H. destruct H as [H1 H2]. split; [assumption|].
+    - apply andb_true_iff in Hh. destruct Hh as [H1 H2]. split; [assumption|].
       destruct (nth_error sigs f) as [fs|]; [|discriminate]. apply andb_true_iff in H2. destruct H2 as [H2 H3].
       split; [assumption|]. rewrite (wr_args_agree _ _ _ H3). reflexivity.
   Qed.
@@ -163,29 +163,31 @@ Qed.
 Section Kind.
   Variables (d : prec) (W : list (list bool)) (sigs : list (list farg)) (NC : list ident) (G : env).
 
+  Lemma carg_obl_kind : forall a w f, site_ok G a f = true -> wsite_ok a f = true ->
+    forallb ok_kind (carg_obl d NC G a w f) = true.
+  Proof.
+    intros a w f S V. destruct f as [fx|fx fp fm fsh]; destruct a as [x rw n|x n|]; simpl in S; try discriminate.
+    - reflexivity.
+    - (* bare name *)
+      simpl. destruct (lookup x G) as [b|] eqn:L; [|destruct fsh; discriminate]. simpl. rewrite andb_true_r.
+      unfold name_cty. destruct fsh as [|k|k]; simpl in *.
+      + destruct (b_shape b); try (rewrite andb_false_r in S; discriminate). reflexivity.
+      + apply negb_true_iff in V. subst rw.
+        destruct (b_shape b); simpl in *; try reflexivity. discriminate.
+      + subst rw. destruct (b_shape b); simpl in *; try discriminate. rewrite andb_false_r in S. discriminate.
+    - (* window expression *)
+      destruct fsh as [|k|k]; try discriminate; simpl in V; try discriminate.
+      simpl. destruct (lookup x G) as [b|]; [|discriminate]. simpl. rewrite S. reflexivity.
+    - destruct fsh; discriminate.
+  Qed.
+
   Lemma call_obl_kind : forall args flags fs, sites_ok G args fs = true -> wsites_ok args fs = true ->
     forallb ok_kind (call_obl d NC G args flags fs) = true.
   Proof.
     induction args as [|a args IH]; intros flags fs H1 H2; [reflexivity|].
     destruct flags as [|w flags]; [reflexivity|]. destruct fs as [|f fs]; [reflexivity|].
     simpl in H1, H2. apply andb_true_iff in H1, H2. destruct H1 as [S1 S2]. destruct H2 as [V1 V2].
-    simpl. rewrite forallb_app, (IH _ _ S2 V2), andb_true_r.
-    destruct f as [fx|fx fp fm fsh]; destruct a as [x rw n|x n|]; simpl in S1; try discriminate; try reflexivity.
-    - (* numeric formal, bare name *)
-      destruct fsh as [|k|k]; destruct (lookup x G) as [b|] eqn:L; try discriminate; simpl; rewrite L; simpl.
-      + destruct (b_shape b); try (rewrite !andb_false_r in S1; discriminate). reflexivity.
-      + simpl in V1. apply negb_true_iff in V1. subst.
-        apply andb_true_iff in S1. destruct S1 as [S1 _]. apply andb_true_iff in S1. destruct S1 as [S1 _].
-        apply andb_true_iff in S1. destruct S1 as [S1 _].
-        unfold name_cty. destruct (b_shape b); simpl in *; try reflexivity. discriminate.
-      + simpl in V1. subst. apply andb_true_iff in S1. destruct S1 as [S1 S5].
-        apply andb_true_iff in S1. destruct S1 as [S1 _]. apply andb_true_iff in S1. destruct S1 as [S1 _].
-        apply andb_true_iff in S1. destruct S1 as [S1 _].
-        destruct (b_shape b); simpl in *; discriminate.
-    - (* numeric formal, window expression *)
-      destruct fsh as [|k|k]; try discriminate; destruct (lookup x G) as [b|] eqn:L; try discriminate; simpl.
-      + simpl in V1. discriminate.
-      + rewrite S1. reflexivity.
+    simpl. rewrite forallb_app, (IH _ _ S2 V2), andb_true_r. apply carg_obl_kind; assumption.
   Qed.
 
   Lemma obl_kind_stmt : forall (s : stmt prec),
@@ -311,4 +313,16 @@ Proof.
   unfold cwt_const, ctypes. rewrite forallb_flat_map. rewrite Hw.
   rewrite forallb_forall in *. intros s Hs. apply obl_const_stmt; auto.
   intros x Hx. apply in_map. apply in_flat_map. exists s. auto.
+Qed.
+
+Lemma accept_welltyped_partial :
+  forall c prog order aps i q,
+    c_dflt c <> PR ->
+    backend_checks c prog order = Ok aps -> In (i, q) aps ->
+    hyp_proc (c_dflt c) (sigs_of prog) q = true ->
+    cwt (ctypes (c_dflt c) (build_W prog) (sigs_of prog) q) = true.
+Proof.
+  intros c prog order aps i q Hd H Hq Hh. unfold cwt.
+  rewrite (accept_prec _ _ _ _ _ _ _ Hd H Hq), (accept_kind_partial _ _ _ _ _ _ _ H Hq Hh),
+          (accept_const_partial _ _ _ _ _ _ _ H Hq Hh). reflexivity.
 Qed.
